@@ -294,7 +294,9 @@ func runLpCase(w *bufio.Writer, c *lpCase, r *rand.Rand) {
 				// the same link service sends packet after packet (what a face does): nothing of an earlier packet may stay behind
 				snd, st = prevSnd, prevSt
 				st.Reset()
-				st.SetMTU(o.mtu)
+				if snd.MTU() != o.mtu {
+					snd.SetMTU(o.mtu) // LinkService.SetMTU: what management faces/update calls
+				}
 				o.seq = face.VerifNextSequence(snd)
 			} else if len(o.hist) == 0 {
 				sopts := face.MakeNDNLPLinkServiceOptions()
@@ -592,6 +594,43 @@ func randName(r *rand.Rand) enc.Name {
 	return n
 }
 
+// mkSpecialPacket: network packets at the value-shape boundaries of names: the empty name "/" (07 00), zero-length components,
+// a name that fills almost the whole packet, many one-byte components - as Data and as Interest.
+func mkSpecialPacket(r *rand.Rand) []byte {
+	var name enc.Name
+	switch r.Intn(5) {
+	case 0:
+		name = enc.Name{}
+	case 1:
+		name = enc.Name{enc.NewBytesComponent(enc.TypeGenericNameComponent, []byte{})}
+	case 2:
+		name = enc.Name{enc.NewBytesComponent(enc.TypeGenericNameComponent, []byte{}), enc.NewBytesComponent(enc.TypeGenericNameComponent, []byte("a")),
+			enc.NewBytesComponent(enc.TypeGenericNameComponent, []byte{})}
+	case 3:
+		big := make([]byte, 2000+r.Intn(6000))
+		for i := range big {
+			big[i] = byte('a' + i%26)
+		}
+		name = enc.Name{enc.NewBytesComponent(enc.TypeGenericNameComponent, []byte("big")), enc.NewBytesComponent(enc.TypeGenericNameComponent, big)}
+	default:
+		for i := 0; i < 300+r.Intn(1500); i++ {
+			name = append(name, enc.NewBytesComponent(enc.TypeGenericNameComponent, []byte{byte('a' + i%26)}))
+		}
+	}
+	if r.Intn(3) == 0 {
+		lt := 4 * time.Second
+		i, err := spec.Spec{}.MakeInterest(name, &ndn.InterestConfig{Nonce: utils.IdPtr(r.Uint64() >> 32), Lifetime: &lt, CanBePrefix: true}, nil, nil)
+		if err == nil && len(i.Wire.Join()) <= defn.MaxNDNPacketSize {
+			return i.Wire.Join()
+		}
+	}
+	d, err := spec.Spec{}.MakeData(name, &ndn.DataConfig{ContentType: utils.IdPtr(ndn.ContentTypeBlob)}, enc.Wire{[]byte("x")}, signer)
+	if err != nil || len(d.Wire.Join()) > defn.MaxNDNPacketSize {
+		return mkData(r, 200)
+	}
+	return d.Wire.Join()
+}
+
 // mkData makes a valid Data packet whose encoded size is as close as possible to target (exact when reachable).
 func mkData(r *rand.Rand, target int) []byte {
 	name := randName(r)
@@ -740,7 +779,9 @@ func genPermCase(r *rand.Rand, idx int, thorough bool) *lpCase {
 	sizes := boundarySizes(mtu)
 	for m := 0; m < nmsg; m++ {
 		var wire []byte
-		if r.Intn(4) == 0 { // Interests with a HopLimit, one to three fragments on the small MTUs
+		if r.Intn(7) == 0 {
+			wire = mkSpecialPacket(r)
+		} else if r.Intn(4) == 0 { // Interests with a HopLimit, one to three fragments on the small MTUs
 			if mtu <= 256 && r.Intn(3) != 0 {
 				wire = mkInterestSized(r, mtu/2+r.Intn(2*mtu))
 			} else {
@@ -911,6 +952,9 @@ func exactFit(mtu int, tok []byte, inface, mark *uint64) int {
 func genVaryCase(r *rand.Rand, idx int) *lpCase {
 	c := &lpCase{id: fmt.Sprintf("vary%d", idx), kind: "c10-perm", nthreads: 1 + idx%3, reasm: true}
 	mtu := []int{256, 1500, 8800, 400}[idx%4]
+	if idx%2 == 1 {
+		mtu = 8800 // created at the maximum, lowered later
+	}
 	ifi := idx%2 == 0
 	toks := [][]byte{make([]byte, 32), {0, 0, 9, 8, 7, 6}, {0x42}, nil, {0, 0, 1, 1, 1, 1}, nil, make([]byte, 20), nil}
 	marks := []*uint64{utils.IdPtr(uint64(1)), nil, utils.IdPtr(uint64(70000)), nil, nil, utils.IdPtr(uint64(0)), nil, nil}
@@ -942,8 +986,13 @@ func genVaryCase(r *rand.Rand, idx int) *lpCase {
 		if size < 90 {
 			size = 90
 		}
-		c.ops = append(c.ops, &lpOp{kind: "SEND", mtu: mtu, frag: true, ifi: ifi, seq: seqStarts[idx%len(seqStarts)], tok: tok, mark: mark, inface: inface,
+		c.ops = append(c.ops, &lpOp{kind: "SEND", mtu: mtu, frag: idx%5 != 4, ifi: ifi, seq: seqStarts[idx%len(seqStarts)], tok: tok, mark: mark, inface: inface,
 			wire: mkData(r, size), keep: k > 0})
+		// SetMTU between packets (faces/update with Mtu): the next packet is sized for the NEW MTU - often between the old and
+		// the new one, so that a stale MTU shows as an oversize frame (lowered) or as a needlessly split packet (raised)
+		if idx%2 == 1 && r.Intn(2) == 0 {
+			mtu = []int{8800, 1500, 400, 256, 128, 1000, 4000}[r.Intn(7)]
+		}
 	}
 	c.after = func(c *lpCase, r *rand.Rand) []*lpOp {
 		var res []*lpOp
